@@ -142,4 +142,90 @@ end
 def condOK (p : Program) : Bool := okAtL true p.decls
 
 
+/-! ## which node calls for which piece -/
+
+/-- the pieces a node contributes itself (without those of its children) -/
+def own : Node → Doc
+  | .block _ _ => []
+  | .superInst t _ => [(Tag.superT, typeName t)]
+  | .classDecl name ctype isFinal _ _ _ tparams => (Tag.classD name, classHead name ctype isFinal) :: tparamPieces tparams
+  | .varDecl name _ isFinal varType _ =>
+      (Tag.varD name, (if isFinal then "val " else "var ") ++ name) ::
+        (match varType with | some t => [(Tag.varAnnot name, ": " ++ typeName t)] | none => [])
+  | .callArg _ name => (match name with | some nm => if nm != "" then [(Tag.name, nm)] else [] | none => [])
+  | .fieldDecl name t isFinal canOverride override =>
+      [(Tag.fieldD name, (if canOverride then "open " else "") ++ (if override then "override " else "") ++
+        (if isFinal then "val " else "var ") ++ name ++ ": " ++ typeName t)]
+  | .paramDecl name t vararg _ => [(Tag.paramD name, paramText name t vararg)]
+  | .funcDecl name _ retType _ body isFinal override tparams _ =>
+      (Tag.funcD name, funcHead isFinal override body.isSome) ::
+        (tparamPieces tparams ++ ((Tag.funcName name, name) ::
+          (match retType with | some t => [(Tag.retAnnot name, ": " ++ typeName t)] | none => [])))
+  | .lambda _ _ retType body _ =>
+      if isBlock (some body) then
+        (match retType with | some t => [(Tag.lamRet, ": " ++ typeName t)] | none => [])
+      else []
+  | .funcRef func _ _ => [(Tag.name, func)]
+  | .bottom t => (match t with | some x => [(Tag.ty, typeName x)] | none => [])
+  | .intC lit _ => [(Tag.lit, lit)]
+  | .realC lit _ => [(Tag.lit, lit)]
+  | .boolC lit => [(Tag.lit, lit)]
+  | .charC lit => [(Tag.lit, lit)]
+  | .stringC lit => [(Tag.lit, lit)]
+  | .arrayE t len _ =>
+      if len == 0 then [(Tag.ty, arrayElem t)]
+      else [(Tag.ty, if arrayIsSpec t then asciiLower (arrayElem t) else arrayElem t)]
+  | .variable name => [(Tag.name, name)]
+  | .binop _ _ _ op => [(Tag.op, op)]
+  | .cond .. => []
+  | .isE _ t isNot => [(Tag.op, if isNot then "!is" else "is"), (Tag.ty, attrName t)]
+  | .newE t _ canInfer => [(Tag.newT (!canInfer), if canInfer then attrName t else typeName t)]
+  | .fieldAccess _ field => [(Tag.name, field)]
+  | .call func _ _ targs canInfer _ =>
+      (Tag.name, func) ::
+        (if !canInfer && !targs.isEmpty then
+            [(Tag.targs func, "<" ++ ",".intercalate (targs.map typeName) ++ ">")] else [])
+  | .assign name _ _ => [(Tag.name, name)]
+
+mutual
+/-- the node and all nodes below it that the translator visits -/
+def printed : Node → List Node
+  | .block body f => .block body f :: printedL body
+  | .superInst t args => .superInst t args :: printedOL args
+  | .classDecl a b c fields supers funcs tp =>
+      .classDecl a b c fields supers funcs tp :: (printedL fields ++ (printedL supers ++ printedL funcs))
+  | .varDecl a e b c d => .varDecl a e b c d :: printed e
+  | .callArg e a => .callArg e a :: printed e
+  | .fieldDecl a b c d e => [.fieldDecl a b c d e]
+  | .paramDecl a b c dflt => .paramDecl a b c dflt :: printedO dflt
+  | .funcDecl a params b c body d e f g => .funcDecl a params b c body d e f g :: (printedL params ++ printedO body)
+  | .lambda a params b body c => .lambda a params b body c :: (printedL params ++ printed body)
+  | .funcRef a receiver b => .funcRef a receiver b :: printedO receiver
+  | .bottom t => [.bottom t]
+  | .intC a b => [.intC a b]
+  | .realC a b => [.realC a b]
+  | .boolC a => [.boolC a]
+  | .charC a => [.charC a]
+  | .stringC a => [.stringC a]
+  | .arrayE t len exprs => .arrayE t len exprs :: (if len == 0 then [] else printedL exprs)
+  | .variable a => [.variable a]
+  | .binop a l r b => .binop a l r b :: (printed l ++ printed r)
+  | .cond c t f a => .cond c t f a :: (printed c ++ (printed t ++ printed f))
+  | .isE e a b => .isE e a b :: printed e
+  | .newE a args b => .newE a args b :: printedL args
+  | .fieldAccess e a => .fieldAccess e a :: printed e
+  | .call a args receiver b c d => .call a args receiver b c d :: (printedO receiver ++ printedL args)
+  | .assign a expr receiver => .assign a expr receiver :: (printedO receiver ++ printed expr)
+def printedL : List Node → List Node
+  | [] => []
+  | x :: xs => printed x ++ printedL xs
+def printedO : Option Node → List Node
+  | none => []
+  | some x => printed x
+def printedOL : Option (List Node) → List Node
+  | none => []
+  | some xs => printedL xs
+end
+
+
 end Heph.TransKotlin
